@@ -152,24 +152,23 @@ Proof. conj_split.
   - apply law_basis_history_CEL. Qed.
 Print Assumptions C02_basis_states.
 
-(* spec level: for EVERY orthogonal basis matrix the round trip holds *)
-Theorem C02_any_orthogonal_basis (b : nat -> nat -> R) (v : nat -> R) :
-  (forall i j, (i < 3)%nat -> (j < 3)%nat ->
-     b i 0%nat * b j 0%nat + b i 1%nat * b j 1%nat + b i 2%nat * b j 2%nat = if Nat.eqb i j then 1 else 0) ->
-  (forall i j, (i < 3)%nat -> (j < 3)%nat ->
-     b 0%nat i * b 0%nat j + b 1%nat i * b 1%nat j + b 2%nat i * b 2%nat j = if Nat.eqb i j then 1 else 0) ->
-  forall i, (i < 3)%nat ->
-  (* into (outof v) with outof = into^T *)
-  b i 0%nat * (b 0%nat 0%nat * v 0%nat + b 1%nat 0%nat * v 1%nat + b 2%nat 0%nat * v 2%nat)
-  + b i 1%nat * (b 0%nat 1%nat * v 0%nat + b 1%nat 1%nat * v 1%nat + b 2%nat 1%nat * v 2%nat)
-  + b i 2%nat * (b 0%nat 2%nat * v 0%nat + b 1%nat 2%nat * v 1%nat + b 2%nat 2%nat * v 2%nat) = v i.
+(* spec level: for EVERY matrix B with orthonormal rows used as `into` (and its
+   transpose as `outof`) the conversion into the basis undoes the conversion out of it *)
+Theorem C02_any_orthogonal_basis b00 b01 b02 b10 b11 b12 b20 b21 b22 v0 v1 v2 :
+  b00*b00 + b01*b01 + b02*b02 = 1 -> b10*b10 + b11*b11 + b12*b12 = 1 -> b20*b20 + b21*b21 + b22*b22 = 1 ->
+  b00*b10 + b01*b11 + b02*b12 = 0 -> b00*b20 + b01*b21 + b02*b22 = 0 -> b10*b20 + b11*b21 + b12*b22 = 0 ->
+  let o0 := b00*v0 + b10*v1 + b20*v2 in let o1 := b01*v0 + b11*v1 + b21*v2 in let o2 := b02*v0 + b12*v1 + b22*v2 in
+  b00*o0 + b01*o1 + b02*o2 = v0 /\ b10*o0 + b11*o1 + b12*o2 = v1 /\ b20*o0 + b21*o1 + b22*o2 = v2.
 Proof.
-  intros Hr _ i Hi.
-  pose proof (Hr i 0%nat Hi ltac:(Lia.lia)) as H0. pose proof (Hr i 1%nat Hi ltac:(Lia.lia)) as H1. pose proof (Hr i 2%nat Hi ltac:(Lia.lia)) as H2.
-  destruct i as [|[|[|i]]]; cbn [Nat.eqb] in *; try (exfalso; Lia.lia);
-  match goal with |- ?l = _ =>
-    replace l with ((b _ 0%nat * b 0%nat 0%nat + b _ 1%nat * b 0%nat 1%nat + b _ 2%nat * b 0%nat 2%nat) * v 0%nat
-                  + (b _ 0%nat * b 1%nat 0%nat + b _ 1%nat * b 1%nat 1%nat + b _ 2%nat * b 1%nat 2%nat) * v 1%nat
-                  + (b _ 0%nat * b 2%nat 0%nat + b _ 1%nat * b 2%nat 1%nat + b _ 2%nat * b 2%nat 2%nat) * v 2%nat) by ring end;
-  rewrite H0, H1, H2; ring.
+  intros H00 H11 H22 H01 H02 H12 o0 o1 o2; subst o0 o1 o2. conj_split.
+  - replace (b00 * (b00 * v0 + b10 * v1 + b20 * v2) + b01 * (b01 * v0 + b11 * v1 + b21 * v2) + b02 * (b02 * v0 + b12 * v1 + b22 * v2))
+      with ((b00*b00 + b01*b01 + b02*b02) * v0 + (b00*b10 + b01*b11 + b02*b12) * v1 + (b00*b20 + b01*b21 + b02*b22) * v2) by ring.
+    rewrite H00, H01, H02; ring.
+  - replace (b10 * (b00 * v0 + b10 * v1 + b20 * v2) + b11 * (b01 * v0 + b11 * v1 + b21 * v2) + b12 * (b02 * v0 + b12 * v1 + b22 * v2))
+      with ((b00*b10 + b01*b11 + b02*b12) * v0 + (b10*b10 + b11*b11 + b12*b12) * v1 + (b10*b20 + b11*b21 + b12*b22) * v2) by ring.
+    rewrite H01, H11, H12; ring.
+  - replace (b20 * (b00 * v0 + b10 * v1 + b20 * v2) + b21 * (b01 * v0 + b11 * v1 + b21 * v2) + b22 * (b02 * v0 + b12 * v1 + b22 * v2))
+      with ((b00*b20 + b01*b21 + b02*b22) * v0 + (b10*b20 + b11*b21 + b12*b22) * v1 + (b20*b20 + b21*b21 + b22*b22) * v2) by ring.
+    rewrite H02, H12, H22; ring.
 Qed.
+Print Assumptions C02_any_orthogonal_basis.
